@@ -99,6 +99,15 @@ CLAIMED["C10"] = _entry(
     "static analysis: single-writer and sanitised-store rules via def-use expansion, CFG ordering/must-pass of signal emissions, write=>invalidate, return discipline",
 )
 
+CLAIMED["C20"] = _entry(
+    "Static analysis decides the scroll position's clamp discipline (every store made while rendering is one of the enumerated clamped forms; ensure_bounds is max(0, min(total - height, .))), "
+    "that the rows trimmed, the row translation of mouse events and the reported position all use the same attribute, the remainder-defined scrollbar parts and widths, that a key handled by "
+    "the wrapped widget returns before any scroll action is set, that the thumb geometry only uses queries made with the size the child is drawn at, cols/rows and half-open bound discipline, "
+    "and invalidation by the mutators. The numeric bounds of the position after all histories and thumb monotonicity are value properties and not decided (level 'other').",
+    "DESIGN.md section 3, C20; engines E11, E6, E2, E1",
+    "static analysis: sanitised-store (closed set of clamp forms with CFG dominators), def-use flow of size arguments into the thumb geometry, linear canonical forms, CFG ordering",
+)
+
 _PENDING = "check not built yet in this session (planned per DESIGN.md section 3); listed here until its static rules exist and pass on the pinned tree"
 NOT_APPLICABLE = {pid: _PENDING for pid in [f"C{i:02d}" for i in range(1, 21)] if pid not in CLAIMED and pid != "C07"}
 NOT_APPLICABLE["C07"] = (
